@@ -29,6 +29,7 @@ def _extra(rng, g):
     ind = g["indict"]
     if rng.random() < 0.25:
         name, f = rng.choice(FUNCS)
+        f = systems.in_time_symbol(f, ind)      # the function is one of the CONFIGURED time variable
         dyn = ind["dynamics"]
         dyn.append({"expression": "%s = %s" % (name, f)})
         k = rng.randrange(len(dyn) - 1)
